@@ -106,7 +106,9 @@ class World(BaseWorld):
             state = {l: rng.choice((0, 1)) for l in labels}
         lo, hi = c["vals"]
         v = rng.randint(lo, hi)
-        if c.get("float_vals") and rng.random() < 0.5:
+        if c.get("big_vals"):
+            v += c["big_vals"]        # exact integers beyond 2^53: distinct values that a float conversion would merge
+        elif c.get("float_vals") and rng.random() < 0.5:
             v = v + rng.choice([0.0, 0.5, -0.5, 0.25])
         return (state, v, spin)
 
@@ -673,7 +675,9 @@ def gen_cfg(rng, prop, tier):
     w = {}
     for k in ("new", "remove", "pop", "extend", "setitem"):
         w[k] = rng.choice([0.3, 1, 3, 6])
+    big = rng.choice([2 ** 53, -(2 ** 53), 2 ** 64 + 1, 10 ** 30]) if rng.random() < 0.12 else 0
     return {
+        "big_vals": big,
         "n_ops": rng.choice([4, 8, 15, 30] if tier == "quick" else [4, 8, 15, 30, 60]),
         "vals": [lo, hi],
         "p_spin": rng.choice([0.0, 0.5, 1.0]),
